@@ -276,6 +276,10 @@ def normalize_url(
 
     has_protocol = PROTOCOL_RE.match(url)
 
+    # NOTE: a protocol-relative url has no scheme to keep, whatever scheme the
+    # steps below read it with
+    protocol_relative = url.startswith("//")
+
     # Ensuring scheme so parsing works correctly
     if not has_protocol:
         url = "https://" + url
@@ -408,7 +412,7 @@ def normalize_url(
         path = ""
 
     # Dropping scheme
-    if strip_protocol or not has_protocol:
+    if strip_protocol or not has_protocol or protocol_relative:
         scheme = ""
 
     # Dropping authentication
